@@ -35,7 +35,9 @@ CODE = HEAD + r'''
 #define COMPLETED (W_state == sm_pairing_state_pairing_completed)
 /* the property's table: no key unless a pairing completed; Just Works -> unauthenticated; every other method (passkey, OOB, numeric comparison) -> authenticated */
 #define STATUS_LEGACY (!COMPLETED ? device_pairing_status_no_key : W_algo == legacy_pairing_algorithm_just_works ? device_pairing_status_unauthenticated_key : device_pairing_status_authenticated_key)
-#define STATUS_LESC   (!COMPLETED ? device_pairing_status_no_key : W_algo == lesc_pairing_algorithm_just_works ? device_pairing_status_unauthenticated_key : device_pairing_status_authenticated_key)
+/* LESC: the exchange the handlers carry out (C32) is the same for every method but numeric comparison, which adds the user's confirmation; 'OOB' / 'passkey entry' selected from the
+   central's request run the plain exchange with r = 0 and authenticate nobody */
+#define STATUS_LESC   (!COMPLETED ? device_pairing_status_no_key : W_algo == lesc_pairing_algorithm_numeric_comparison ? device_pairing_status_authenticated_key : device_pairing_status_unauthenticated_key)
 #define LEG_ALGO_OK  (W_algo >= legacy_pairing_algorithm_just_works && W_algo <= legacy_pairing_algorithm_passkey_entry_input)
 #define LESC_ALGO_OK (W_algo >= lesc_pairing_algorithm_just_works && W_algo <= lesc_pairing_algorithm_numeric_comparison)
 /* ---- legacy_security_connection_data */
@@ -81,7 +83,7 @@ void comb_lesc_pairing_completed(struct comb* self, const struct u128* long_term
 __CPROVER_requires(FRESH(self, struct comb) && (W_state == sm_pairing_state_lesc_pairing_random_exchanged || W_state == sm_pairing_state_user_response_success)
     && __CPROVER_is_fresh(long_term_key, sizeof(struct u128)) && (int)self->state_data_.lesc_state.algorithm == W_algo)
 __CPROVER_ensures(self->state_ == sm_pairing_state_pairing_completed)
-__CPROVER_ensures(self->pairing_status_ == (W_algo == lesc_pairing_algorithm_just_works ? device_pairing_status_unauthenticated_key : device_pairing_status_authenticated_key))
+__CPROVER_ensures(self->pairing_status_ == (W_algo == lesc_pairing_algorithm_numeric_comparison ? device_pairing_status_authenticated_key : device_pairing_status_unauthenticated_key))
 __CPROVER_assigns(self->state_, self->long_term_key_, self->pairing_status_)
 {{comb_lesc_completed}}
 int W_status;
@@ -132,11 +134,18 @@ UNITS = [
                   'comb_yes_no_response', 'ls_ctor', 'ls_pairing_status', 'ls_set_pairing_status', 'ls_security_attributes'], replace=[],
          replay=dict(src='replay/c35_replay.cpp', cxxflags=['-DNDEBUG'], repo_sources=['bluetoe/utility/address.cpp'])),
 ]
+# the stored algorithm is the one selected from THIS request and THIS peer's OOB information (handlers of security_manager.hpp, contracts stated in C32.py)
+_c32 = _load('C32')
+UNITS += [dict(u, enforce=['legacy_handle_pairing_request', 'lesc_handle_pairing_request', 'handle_pairing_request', 'lesc_handle_pairing_dhkey_check', 'lesc_l2cap_output'],
+               replay=dict(src='replay/c35_lesc_replay.cpp', cxxflags=['-DuECC_CURVE=uECC_secp256r1', '-I/repo/tests/security_manager', '-I/repo/tests/test_tools'], repo_sources=['bluetoe/utility/address.cpp'],
+                           c_sources=['tests/test_tools/aes.c', 'tests/test_tools/uECC.c'], cflags=['-DuECC_CURVE=uECC_secp256r1']))
+          for u in _c32.UNITS if u['name'] == 'handlers']
+
 META = dict(
     level='proof',
     explanation="security_connection_data.hpp, all three connection data classes (real bodies, every state and algorithm value): local_device_pairing_status() is "
-                "no_key unless the state is pairing_completed; after completion it is unauthenticated_key exactly for Just Works and authenticated_key for every "
-                "other method (legacy: OOB, passkey entry; LESC: OOB, passkey entry, numeric comparison). legacy / LESC-only classes read the algorithm stored by "
+                "no_key unless the state is pairing_completed; after completion it is unauthenticated_key exactly for Just Works and authenticated_key for legacy OOB "
+                "/ passkey entry and for LESC numeric comparison (the LESC exchange of the handlers is the plain one with r = 0 for every other method, see F-C35b). legacy / LESC-only classes read the algorithm stored by "
                 "pairing_algorithm( algo ); the combined class fixes pairing_status_ in legacy_pairing_completed / lesc_pairing_completed from the algorithm "
                 "of the protocol that ran and returns it unchanged. yes_no_response(): only the user's 'yes' reaches user_response_success (the state "
                 "lesc_pairing_completed accepts for numeric comparison). link_state (link_state.hpp): constructor starts with no_key, pairing_status( s ) stores "
